@@ -5,6 +5,7 @@ FIX_COMMITS = [
     "aaf1324b Tetrahedron(order=3) 4th point",
     "3437b65b Tetrahedron(order=5) degree-4 table replaced",
     "3ca9c68c NeoHooke.gradient stale out buffer when mu is None",
+    "56fde0e6 Form API sym=True on off-diagonal blocks of mixed fields",
 ]
 CHECKS = {
     "C01": {
@@ -50,6 +51,13 @@ CHECKS = {
                 "implementation of the definition (Leibniz determinant, cofactors, index formulas); the polynomial/rational identities are refuted by z3 for all reals. Flags, out=None/fresh/reused "
                 "buffers, parallel=True (one schedule executed) and input immutability are covered per configuration; dims 1..3, batch shapes (1,), (2,), broadcast (2,1)x(1,2), (2,3) thorough.",
         "note": "LAPACK solve replaced by the adjugate model (wiring checked); eig*/strain wrappers not yet covered; thread interleavings of einsumt not explored.",
+    },
+    "C14": {
+        "text": "Force balance (sum of internal nodal forces = 0; axial sum for axisymmetric), the moment identity sum_a x_a (x) r_a - r_a (x) x_a = sum_q (F P^T - P F^T) dV (so the moment vanishes exactly when "
+                "P F^T is symmetric, which C11 proves per model), body-force resultant rho g V, pressure resultant = -p * integrated current area vector and its vanishing on the closed single-cell surface for "
+                "every deformation (Piola identity), mass matrix symmetric / = sum rho h h dV / total mass / PSD via the solver-checked sum-of-squares form, self-equilibrated MPC and contact forces: "
+                "all as SMT obligations over symbolic field values, loads and an abstract material on tiny distorted meshes.",
+        "note": "tolerance 1e-10 relative (float basis arrays: partition of unity of gradients holds to 1e-16); bounded to the listed meshes.",
     },
 }
 NOT_APPLICABLE = {}
